@@ -147,6 +147,29 @@ def zero_array_cases():
     return out
 
 
+def long_overlap_cases():
+    """a short observation overlapping a long one: the short one is
+    ingested, processed and deleted while the long one is still streaming
+    into the hot tier (partial data of a stream is in no stored list)"""
+    from ..scopes import mkobs, mkcfg, mkcase, dag, CLUSTERS
+    out = []
+    for M in (2, 3):
+        for d1 in (1, 2):
+            for s2 in (0, 1):
+                for d2 in (6, 9):
+                    for wf in (dag("single", [1]), dag("chain2", [1, 1],
+                                                       [0])):
+                        obs = [mkobs("a", 0, d1, 1, 1, 1, "wa"),
+                               mkobs("b", s2, d2, 2, 1, 1, "wa")]
+                        cfg = mkcfg(CLUSTERS[M][0], obs, (100, 10),
+                                    (100, 10), 2, 2)
+                        for alg in ({"kind": "queue"},
+                                    {"kind": "batch", "p": 1, "min": 1}):
+                            out.append(("S-long-overlap", mkcase(
+                                cfg, {"wa": wf}, alg)))
+    return out
+
+
 def huge_buffer_cases():
     """production-sized buffers (the repository's configurations use 5e11)
     holding a few units: 'empty' must still mean exactly full free space"""
@@ -191,7 +214,7 @@ def run(rep, tier, seed):
                                "history": [list(h) for h in hist]},
                               detail, "E2-cluster-M%d" % M)
     cs = cases(tier, seed) + repeated_name_cases() + huge_buffer_cases() + \
-        zero_array_cases() + \
+        zero_array_cases() + long_overlap_cases() + \
         common.add_algs(list(common.zero_demand_scope(
             "thorough" if tier == "thorough" else "quick")), lambda c: [{"kind": "queue"}, {"kind": "batch", "p": 1, "min": 1}],
             feasible_only=False)
